@@ -51,6 +51,11 @@ def make_harness(cfg, tw):
         eng = core.engine()
         symnp.random.reset()
         W = models.sym_matrix(eng, N, N, symmetric=True, diag="zero", name="w")
+        if cfg.get("fixed_train"):
+            # narrower claim, far fewer paths: one concrete training geometry (points on a line), every placement of
+            # the validation samples and every random draw still symbolic
+            pos = cfg["fixed_train"]
+            eng.assume(z3.And([to_real(W[i][j]) == rv(float(abs(pos[i] - pos[j]))) for i in range(ntr) for j in range(i + 1, ntr)]))
         opf = sup.SupervisedOPF()
         opf.distance_fn = models.table_metric(W)
         Xt = symnp.SArr.from_list([[float(i)] for i in range(ntr)], tag="caller:Xt")
